@@ -22,7 +22,7 @@ def snapshot():
     out = []
     for cls in (Point, Expression, Function, Constraint, PSDMatrix, BlockPartition, PEP):
         for name in sorted(vars(cls)):
-            if name.startswith("__"):
+            if name.startswith("__") or name.startswith("_verif"):       # (_verif*: markers of this harness' own wrappers)
                 continue
             v = vars(cls)[name]
             if callable(v) or isinstance(v, (staticmethod, classmethod, property)):
@@ -46,6 +46,7 @@ MODELS = {
     6: dict(cls=5, steps="gg", comp=0, ucons=["fi"], lmis=["D2", "L1"], metrics=1, part=0),
     7: dict(cls=1, steps="gg", comp=0, ucons=[], lmis=[], metrics=1, part=0, _heur="trace"),
     8: dict(cls=2, steps="g", comp=0, ucons=["pi"], lmis=["S2"], metrics=2, part=0, _heur="logdet1"),
+    9: dict(_three=1),       # three leaf functions of different classes in one model
 }
 
 
@@ -89,6 +90,18 @@ def fragment(k):
         elif k == 12:     # infeasible solve after a good one
             b = pepsolve.build(dict(cls=2, steps="g")); b.pep.solve(verbose=0, solver="CLARABEL")
             b.pep.add_constraint((b.held["x"] - b.held["x0"]) ** 2 <= -1); b.pep.solve(verbose=0, solver="CLARABEL")
+        elif k == 14:     # a solve with its own solver options, then every held object and the stationary triplet evaluated
+            from PEPit.functions import SmoothStronglyConvexFunction
+            b = pepsolve.build(dict(cls=1, steps="gg", metrics=2))
+            b.pep.solve(verbose=0, solver="CLARABEL", max_iter=60)
+            for o in b.held.values():
+                try:
+                    o.eval()
+                except Exception:
+                    pass
+            for (x, g, v) in b.f.list_of_points:
+                x.eval(); g.eval(); v.eval()
+            b.pep.solve(verbose=0, solver="CLARABEL", max_iter=2)      # an earlier user stops the solver after 2 iterations
         elif k == 13:     # DSL objects built WITHOUT any PEP (bare classes), e.g. a helper module building functions first
             from PEPit.functions import SmoothConvexFunction
             x = Point(); y = Point(); e = Expression()
@@ -109,7 +122,7 @@ def run_b(bid, verbose):
     buf = io.StringIO()
     out = "num"
     with contextlib.redirect_stdout(buf):
-        b = pepsolve.build(prog)
+        b = three_functions(prog["_on_pep"]) if prog.get("_three") else pepsolve.build(prog)
         try:
             ret = b.pep.solve(verbose=verbose, solver="CLARABEL", **kw)
             if ret is None:
@@ -148,6 +161,30 @@ def run_b(bid, verbose):
             n = o.shape[0]
             rows.update(json.dumps(["psd", [sorted_dict(o[i, j]) for i in range(n) for j in range(n)]]).encode())
     return dict(snap=snap, hash=h.hexdigest()[:24], rows=rows.hexdigest()[:24], val=repr(ret), out=out)
+
+
+def three_functions(on_pep):
+    """F = f1 + f2 + f3 with three leaf functions of different classes; two proximal-gradient steps"""
+    from PEPit import PEP
+    from PEPit.functions import SmoothStronglyConvexFunction, ConvexFunction, ConvexLipschitzFunction
+    from PEPit.primitive_steps import proximal_step
+    b = pepsolve.Built()
+    pep = PEP()
+    on_pep()
+    f1 = pep.declare_function(SmoothStronglyConvexFunction, mu=.25, L=1.)
+    f2 = pep.declare_function(ConvexFunction)
+    f3 = pep.declare_function(ConvexLipschitzFunction, M=1.)
+    F = f1 + f2 + f3
+    xs = F.stationary_point()
+    x0 = pep.set_initial_point()
+    pep.set_initial_condition((x0 - xs) ** 2 <= 1)
+    x = x0
+    for _ in range(2):
+        x = x - 0.5 * f1.gradient(x) - 0.5 * f3.gradient(x)
+        x, _, _ = proximal_step(x, f2, 0.5)
+    pep.set_performance_metric((x - xs) ** 2)
+    b.pep, b.held, b.f = pep, dict(x=x, x0=x0, xs=xs), f1
+    return b
 
 
 def sorted_dict(e):
